@@ -511,19 +511,20 @@ type borrow struct {
 	Rule string // rule id there
 	As   string // suffix here
 	Why  string
+	Only string // optional: only obligations whose construct starts with this (the others may be known findings of the lender)
 }
 
 var borrowed = map[string][]borrow{
-	"C01": {{"C12", "C12.O1-O2-O6", "QUORUM-R", "the acknowledgement count the quorum is measured against"}, {"C12", "C12.O3-O4", "QUORUM-Q", "the failover quorum meets every acknowledging set"}, {"C12", "C12.O5", "QUORUM-CHECK", "the quorum check says yes exactly when the quorum is met"}},
-	"C05": {{"C12", "C12.O1-O2-O6", "QUORUM-R", "as for C01"}, {"C12", "C12.O3-O4", "QUORUM-Q", "as for C01"}, {"C12", "C12.O5", "QUORUM-CHECK", "approval relies on the check"}, {"C16", "C16.FLAG", "CASCADEFLAG", "the HA-node count of the 'coordination problem' guard skips cascade replicas by this flag"}, {"C16", "C16.COUNT", "COUNTERS", "the counters approval compares"}},
-	"C12": {{"C01", "C01.g3", "RECOUNT", "the recount after the freeze hands the published list and the frozen count to the check"}, {"C16", "C16.COUNT", "COUNTERS", "the alive-replica count handed to the check counts replicas only"}},
-	"C03": {{"C02", "C02.AUTO-i", "QUORUMLOSS", "a manager that released the lock after losing its quorum ends the iteration"}},
-	"C06": {{"C02", "C02.AUTO-i", "QUORUMLOSS", "a process that gave the lock away does not go on to process the request"}},
-	"C02": {{"C03", "C03.SESSION", "LOCKCACHE", "one manager: the lock cache dies with the session"}},
-	"C07": {{"C03", "C03.SESSION", "LOCKCACHE", "the lock re-checks stop a deposed manager only if the cache is dropped on session loss"}},
-	"C10": {{"C13", "C13.CALLERS", "RELATIONS", "repair's progress test uses 'ahead' on (new, old)"}},
-	"C14": {{"C15", "C15.IDENTITY", "IDENTITY", "'no configuration = priority 0' is an errors.Is test on the wrapper's error"}},
-	"C09": {{"C05", "C05.SITES", "REQUEST", "light mode recognises a failover request by the transition the filing helper writes"}},
+	"C01": {{From: "C12", Rule: "C12.O1-O2-O6", As: "QUORUM-R", Why: "the acknowledgement count the quorum is measured against"}, {From: "C12", Rule: "C12.O3-O4", As: "QUORUM-Q", Why: "the failover quorum meets every acknowledging set"}, {From: "C12", Rule: "C12.O5", As: "QUORUM-CHECK", Why: "the quorum check says yes exactly when the quorum is met"}},
+	"C05": {{From: "C12", Rule: "C12.O1-O2-O6", As: "QUORUM-R", Why: "as for C01"}, {From: "C12", Rule: "C12.O3-O4", As: "QUORUM-Q", Why: "as for C01"}, {From: "C12", Rule: "C12.O5", As: "QUORUM-CHECK", Why: "approval relies on the check"}, {From: "C16", Rule: "C16.FLAG", As: "CASCADEFLAG", Why: "the HA-node count of the 'coordination problem' guard skips cascade replicas by this flag"}, {From: "C16", Rule: "C16.COUNT", As: "COUNTERS", Why: "the counters approval compares"}},
+	"C12": {{From: "C01", Rule: "C01.g3", As: "RECOUNT", Why: "the recount after the freeze hands the published list and the frozen count to the check"}, {From: "C16", Rule: "C16.COUNT", As: "COUNTERS", Why: "the alive-replica count handed to the check counts replicas only"}, {From: "C04", Rule: "C04.BASIS", As: "BASIS", Why: "the acknowledgement count sent to the master is computed from this iteration's list", Only: "count-basis:this-iteration"}},
+	"C03": {{From: "C02", Rule: "C02.AUTO-i", As: "QUORUMLOSS", Why: "a manager that released the lock after losing its quorum ends the iteration"}},
+	"C06": {{From: "C02", Rule: "C02.AUTO-i", As: "QUORUMLOSS", Why: "a process that gave the lock away does not go on to process the request"}},
+	"C02": {{From: "C03", Rule: "C03.SESSION", As: "LOCKCACHE", Why: "one manager: the lock cache dies with the session"}},
+	"C07": {{From: "C03", Rule: "C03.SESSION", As: "LOCKCACHE", Why: "the lock re-checks stop a deposed manager only if the cache is dropped on session loss"}, {From: "C01", Rule: "C01.g6", As: "POSITIONS", Why: "a resumed run must see the received-but-unapplied tails again: positions include the retrieved set whatever the thread state"}},
+	"C10": {{From: "C13", Rule: "C13.CALLERS", As: "RELATIONS", Why: "repair's progress test uses 'ahead' on (new, old)"}},
+	"C14": {{From: "C15", Rule: "C15.IDENTITY", As: "IDENTITY", Why: "'no configuration = priority 0' is an errors.Is test on the wrapper's error"}},
+	"C09": {{From: "C05", Rule: "C05.SITES", As: "REQUEST", Why: "light mode recognises a failover request by the transition the filing helper writes"}},
 }
 
 func (c *Check) runBorrowed(id string) {
@@ -548,7 +549,7 @@ func (c *Check) runBorrowed(id string) {
 		}
 		n := 0
 		for _, o := range sub.obs {
-			if o.Rule != b.Rule {
+			if o.Rule != b.Rule || (b.Only != "" && !strings.HasPrefix(o.Construct, b.Only)) {
 				continue
 			}
 			n++
